@@ -63,6 +63,22 @@ def scenarios(tier, seed):
                             out.append(dict(base, mode="explicit", inf=list(inf), rec=list(rec), style="positional", val=val, a=0, b=1))
                 if sim in IC_ONLY:
                     continue
+                # the same requests on the other code paths of a simulator: weight options, a zero rate, a start time of
+                # large magnitude (events follow within a relatively tiny delay)
+                if tmin == 0:
+                    for vi, var in enumerate(({"weighted": True}, {"tau": 0.0}, {"gamma": 0.0}, {"tmin": 1.0e6, "tau": 4.0}, {"tmin": -2.5e5, "gamma": 4.0})):
+                        if "weighted" in var and not simruns.supports_weights(sim):
+                            continue
+                        if simruns.is_discrete(sim) and ("tau" in var or "gamma" in var) and "tmin" not in var:
+                            continue
+                        b2 = dict(base, **var)
+                        if b2["tmax"] is not None:
+                            b2["tmax"] = b2["tmin"] + 4
+                        for (inf, rec) in pairs[vi::5][:6]:
+                            if rec and not simruns.supports_R0(sim):
+                                continue
+                            out.append(dict(b2, mode="explicit", inf=list(inf), rec=list(rec), style="list", val=sorted(u - 1 for u in inf), a=0, b=1,
+                                            variant="+".join(sorted(var))))
                 for (a, b) in ((1, 4), (1, 2), (3, 4), (1, n), (1, 8)):
                     out.append(dict(base, mode="rho", inf=[], rec=[], style="rho", val=None, a=a, b=b))
                 out.append(dict(base, mode="default", inf=[], rec=[], style="default", val=None, a=0, b=1))
@@ -93,7 +109,7 @@ def _record(i):
     if sc["mode"] in ("rho", "both"):
         ikw["rho"] = sc["a"] / sc["b"]
     call = {"tau": sc["tau"], "gamma": sc["gamma"], "p": sc["p"], "tmin": sc["tmin"], "tmax": sc["tmax"],
-            "init_kw": ikw, "positional": sc["style"] == "positional"}
+            "init_kw": ikw, "positional": sc["style"] == "positional", "weighted": bool(sc.get("weighted"))}
     if sc["sim"] in IC_ONLY:
         call["init_kw"] = {"initial_infecteds": sc["val"], "initial_recovereds": [u - 1 for u in sc["rec"]]}
     tr = {"sim": sc["sim"], "n": n, "mode": sc["mode"], "inf": sc["inf"], "rec": sc["rec"], "a": sc["a"], "b": sc["b"],
@@ -184,7 +200,7 @@ def main():
             continue
         clause, detail = tracecheck.failing_clause(diags.get(j))
         sc = scn[j]
-        cls = sc["mode"] + ("+initial-recovereds" if sc["rec"] else "") + ("/" + sc["style"] if sc["mode"] in ("both",) or sc["style"] == "positional" else "")
+        cls = sc["mode"] + ("+initial-recovereds" if sc["rec"] else "") + ("/" + sc["style"] if sc["mode"] in ("both",) or sc["style"] == "positional" else "") + ("," + sc["variant"] if sc.get("variant") else "")
         chk.violation("%s|%s|%s" % (t["sim"], clause, cls),
                       "call rejected by TraceInit (%s): outcome %r row0 %r statuses at tmin %r first history entries %r; request %r"
                       % (detail, t["outcome"], t["row0"], t["st0"], t.get("first_entries"),
